@@ -300,6 +300,9 @@ func (hs *serverHandshakeStateGM) checkForResumption() bool {
 	if sessionHasClientCerts && c.config.ClientAuth == NoClientCert {
 		return false
 	}
+	if !c.clientCertsStillVerify(hs.sessionState.certificates) {
+		return false
+	}
 
 	return true
 }
